@@ -1,6 +1,23 @@
-From Verif Require Import Model.Base Model.Heap.
+(* Evaluator for observed object graphs (C11, C12):
+   HUnchanged  the operands' graph before and after a call: same values, same shape, same sharing
+   HSeparate   no location reachable from a result is reachable from an operand
+   HCopy       a Copy method against the model's deep copy: the graph of (source, copy) observed
+               after the call is the graph of (source, model copy), location names aside *)
+From Verif Require Import Model.Base Model.Heap Corr.Canon.
 Open Scope list_scope.
+
 Inductive case_heap :=
-  | HUnchanged (before : list (N * hcell)) (ops : list hval) (after : list (N * hcell)) (ops' : list hval)
-  | HSeparate (h : list (N * hcell)) (ops : list hval) (results : list hval).
-Definition mismatches (cs : list case_heap) : list nat := [].
+  | HUnchanged (before : heap) (ops : list hval) (after : heap) (ops' : list hval)
+  | HSeparate (h : heap) (ops : list hval) (results : list hval)
+  | HCopy (before : heap) (op : hval) (after : heap) (op' : hval) (res : hval).
+
+Definition case_ok (c : case_heap) : bool :=
+  match c with
+  | HUnchanged h ops h' ops' => same_graph h ops h' ops'
+  | HSeparate h ops results => separated h results ops
+  | HCopy h op h' op' res =>
+      let '(res_m, hm) := copy_value h op in
+      (same_graph hm [op; res_m] h' [op'; res] && separated h' [res] [op'])%bool
+  end.
+
+Definition mismatches (cs : list case_heap) : list nat := failing case_ok cs.
